@@ -43,7 +43,28 @@ func ResetGlobals(c Cfg) { mavldb.VerifResetGlobals(c.MemTree, 100) }
 // Open builds a real Store through the registered constructor. driver "memdb" gives a fresh
 // in-memory database per call; "leveldb" opens (or reopens) the directory.
 func Open(c Cfg, driver, dir string) *mavl.Store {
-	return mavl.New(&types.Store{Name: "mavl", Driver: driver, DbPath: dir, DbCache: 16}, c.Sub(), nil).(*mavl.Store)
+	st := mavl.New(&types.Store{Name: "mavl", Driver: driver, DbPath: dir, DbCache: 16}, c.Sub(), nil).(*mavl.Store)
+	if driver == "memdb" {
+		mavl.VerifSetDB(st, lenientDB{st.GetDB()})
+	}
+	return st
+}
+
+// lenientDB removes the one difference between the in-memory backend and goleveldb that the state
+// store can run into: GoMemDB's Batch.Write returns "not found" when its last operation deletes an
+// absent key (after having applied every operation; recorded by C06), goleveldb returns nil. The
+// pruning bookkeeping deletes index keys that may already be gone and wraps the write in MustWrite.
+type lenientDB struct{ dbm.DB }
+
+type lenientBatch struct{ dbm.Batch }
+
+func (d lenientDB) NewBatch(sync bool) dbm.Batch { return lenientBatch{d.DB.NewBatch(sync)} }
+
+func (b lenientBatch) Write() error {
+	if err := b.Batch.Write(); err != nil && !strings.Contains(err.Error(), "not found") {
+		return err
+	}
+	return nil
 }
 
 // DropCaches empties the node cache that lives in the database object.
